@@ -230,6 +230,9 @@ struct Devices {
     return c;
   }
 };
+// When set, every leaf value is multiplied by (1 +- 2^-21): a rounding-level perturbation used by the
+// backend oracle to measure how strongly a whole program amplifies rounding differences.
+static int g_leaf_perturb = 0;
 // leaf attribute layout: n = seed, dev, off, period[, extra]   f = lo, hi
 static inline FV leaf_data(const Instr &I) {
   uint64_t seed = I.n.size() > 0 ? (uint64_t)I.n[0] : 0, off = I.n.size() > 2 ? (uint64_t)I.n[2] : 0;
@@ -239,6 +242,7 @@ static inline FV leaf_data(const Instr &I) {
   long long sz = (long long)I.s.size() + extra; if (sz < 0) sz = 0; if (sz > (1 << 22)) sz = 1 << 22;
   FV v((size_t)sz);
   for (size_t i = 0; i < v.size(); ++i) v[i] = leafval(seed, off + (per ? i % per : i), lo, hi);
+  if (g_leaf_perturb) for (size_t i = 0; i < v.size(); ++i) v[i] *= (mix64(seed + 77 * i) & 1) ? 1.0f + 4.76837158203125e-07f : 1.0f - 4.76837158203125e-07f;
   return v;
 }
 struct ParamSet {
